@@ -37,7 +37,10 @@ def gen_cases(seed, tier):
                       "seed": rng.randint(1, 2**31), "points": [{s: float(rng.randint(0, 6)) for s in spec["x0"]} for _ in range(2)]})
     for _ in range(25 if tier == "quick" else 300):
         cases.append({"kind": "lineage", "seed": rng.randint(1, 2**31), "splitter": rng.choice(["perfect", "general", "lineage"]), "how": rng.choice(["pickle", "deepcopy"]),
-                      "growth": rng.choice([0.3, 0.6]), "div": rng.choice([1.8, 2.2]), "k": rng.choice([0.5, 1.0])})
+                      "growth": rng.choice([0.3, 0.6]), "div": rng.choice([1.8, 2.2]), "k": rng.choice([0.5, 1.0]),
+                      # division by a rule, by an event, or both, next to the death event: the kinds of events are told apart by POSITION in
+                      # one flat propensity list (seeded change S4_C17: the restored model listed death events before division events)
+                      "divide_by": rng.choice(["rule", "event", "both"])})
     # cell states (the records handed from mother to daughter, and what a lineage is continued from): every field survives a copy,
     # for every value of the fields -- including 0.0 for the current time / volume next to a non-zero birth time (seeded change S3_C17)
     for _ in range(40 if tier == "quick" else 400):
@@ -180,7 +183,8 @@ def _lineage_case(case):
             return [(np.asarray(x.py_get_state()).tolist(), float(x.py_get_volume())) for x in d]
         if part(sp0) != part(sp1): out_split.append("splitter %s: partition from the same seed differs after %s" % (case["splitter"], case["how"]))
     M.create_volume_rule("linear", {"growth_rate": case["growth"]})
-    M.create_division_rule("volume", {"threshold": case["div"]}, vs)
+    if case.get("divide_by", "rule") in ("rule", "both"): M.create_division_rule("volume", {"threshold": case["div"]}, vs)
+    if case.get("divide_by", "rule") in ("event", "both"): M.create_division_event("division", {}, "massaction", {"k": 0.4, "species": ""}, vs)
     M.create_death_event("death", {}, "massaction", {"k": 0.01, "species": ""})
     M.py_initialize()
     C = pickle.loads(pickle.dumps(M)) if case["how"] == "pickle" else copy.deepcopy(M)
